@@ -254,6 +254,61 @@ def run(ctx):
                             ok = False
                             break
                 ctx.corr("quad.tensor(" + inp["cell"] + ")", ok, inp, "model rule", "implementation rule")
+    # ---- the arrays handed out belong to the caller: modifying them in place (a composite rule built by scaling
+    # nodes and weights) must not change any rule requested later; and naming the cell by an element (class
+    # instance, wrapper, mesh.elem) gives the rule of its reference cell
+    import skfem
+    from skfem.element import ElementVector, ElementDG
+    ELEMS = {"line": [skfem.ElementLineP1(), skfem.ElementLineP2()],
+             "tri": [skfem.ElementTriP1(), skfem.ElementTriP2(), ElementVector(skfem.ElementTriP1()),
+                     ElementDG(skfem.ElementTriP1()), skfem.ElementTriRT1()],
+             "quad": [skfem.ElementQuad1(), skfem.ElementQuad2()],
+             "tet": [skfem.ElementTetP1(), ElementVector(skfem.ElementTetP1()), skfem.ElementTetN1()],
+             "hex": [skfem.ElementHex1()], "wedge": [skfem.ElementWedge1()]}
+    for kind in ("line", "tri", "quad", "tet", "hex", "wedge"):
+        for n in (0, 1, 2, 3, 4, 5, 7):
+            try:
+                X0, W0 = get_quadrature(RD[kind], n)
+            except NotImplementedError:
+                continue
+            Xc, Wc = np.array(X0, copy=True), np.array(W0, copy=True)
+            for el in ELEMS[kind] + [type(ELEMS[kind][0])]:
+                try:
+                    Xe, We = get_quadrature(el, n)
+                    ok = np.array_equal(Xe, Xc) and np.array_equal(We, Wc)
+                except Exception as ex:
+                    ok = False
+                ctx.count("rule-requested-through-an-element")
+                if not ok:
+                    ctx.violation("the rule requested through an element differs from the rule of its reference cell",
+                                  {"cell": kind, "order": n, "element": type(el).__name__ if not isinstance(el, type)
+                                   else el.__name__ + " (class)"}, {"what": "element-argument", "cell": kind})
+                    break
+            try:
+                X0 *= 0.5
+                W0 *= 0.25
+            except ValueError:
+                pass        # read-only arrays would be fine too
+            X1, W1 = get_quadrature(RD[kind], n)
+            ctx.case({"cell": kind, "order": n, "kind": "caller-modifies-rule"}, nontrivial=True)
+            ctx.count("rule-modified-in-place-then-requested-again")
+            if not (np.array_equal(X1, Xc) and np.array_equal(W1, Wc)):
+                ctx.violation("a rule changed after the caller modified an earlier copy of it in place",
+                              {"cell": kind, "order": n, "weights_sum_now": float(np.sum(W1)),
+                               "weights_sum_before": float(np.sum(Wc))}, {"what": "rule-aliased", "cell": kind})
+            # rules built from the segment rule must be unaffected as well
+            for other in ("line", "quad", "hex", "wedge"):
+                try:
+                    Xo, Wo = get_quadrature(RD[other], n)
+                except NotImplementedError:
+                    continue
+                vol = {"line": 1.0, "quad": 1.0, "hex": 1.0, "wedge": 0.5}[other]
+                if abs(float(np.sum(Wo)) - vol) > 1e-12:
+                    ctx.violation("weights of a rule no longer sum to the measure of the cell after the caller "
+                                  "modified another rule in place",
+                                  {"modified": kind, "order": n, "cell": other, "weights_sum": float(np.sum(Wo))},
+                                  {"what": "rule-aliased", "cell": other})
+                    break
     ctx.exhaustive = True
     if ctx.tier == "thorough" and not getattr(ctx, "no_lean", False):
         ctx.leanchecker(["SkfemVerif.Props.C08"])
